@@ -234,6 +234,9 @@ def check(prop, tier):
     if prop == "C13":
         import golden
         extra_cov, extra_viol = golden.run(wd)
+    if prop == "C16":
+        import satellites
+        extra_viol, extra_cov = satellites.c16_fresh(tier, wd)
     return report(prop, tier, t0, results, mc_results, extra_cov, extra_viol)
 
 
